@@ -167,6 +167,8 @@ class Program(object):
                 except SyntaxError as e:
                     self.parse_errors[rel] = str(e)
         self._mro_cache = {}
+        from . import symeval           # the evaluator sees through unknown helpers of the program most recently built
+        symeval.set_program(self)
 
     # ---- lookups -------------------------------------------------------------------------
     def module(self, name):
